@@ -10,6 +10,7 @@ import (
 	"path/filepath"
 	"sort"
 	"strings"
+	"sync"
 
 	"golang.org/x/tools/go/packages"
 	"golang.org/x/tools/go/ssa"
@@ -34,18 +35,18 @@ type Contract struct {
 
 type SpecFuncInfo struct {
 	*spec.SpecFunc
-	Pkg       *types.Package
-	Recursive bool
-	ParamSort []*smt.Sort
-	ParamGo   []types.Type
-	ResSort   *smt.Sort
-	ResGo     types.Type
-	defText   string
-	def       *smt.DefFun
-	defDeps   []string
-	building  bool
+	Pkg         *types.Package
+	Recursive   bool
+	ParamSort   []*smt.Sort
+	ParamGo     []types.Type
+	ResSort     *smt.Sort
+	ResGo       types.Type
+	defText     string
+	def         *smt.DefFun
+	defDeps     []string
+	building    bool
 	discovering bool
-	hidden    []string // heap entries read by a recursive spec function (hidden parameters)
+	hidden      []string // heap entries read by a recursive spec function (hidden parameters)
 }
 
 type GhostFieldInfo struct {
@@ -58,35 +59,35 @@ type GhostFieldInfo struct {
 }
 
 type Engine struct {
-	Fset      *token.FileSet
-	Prog      *ssa.Program
-	Pkgs      []*packages.Package
-	SSAPkgs   map[string]*ssa.Package
-	ByName    map[string][]*packages.Package
-	Contracts map[*types.Func]*Contract
+	Fset           *token.FileSet
+	Prog           *ssa.Program
+	Pkgs           []*packages.Package
+	SSAPkgs        map[string]*ssa.Package
+	ByName         map[string][]*packages.Package
+	Contracts      map[*types.Func]*Contract
 	FieldContracts map[*types.Var]*FieldContract
-	SpecFuncs map[string]*SpecFuncInfo
-	GhostF    map[string]*GhostFieldInfo // by name (unique)
-	GhostV    map[string]*GhostFieldInfo // ghost globals: Heap + Sort
-	Axioms    []*AxiomInfo
-	Guards    []GuardInfo
-	GlobalInvs []*GlobalInv
-	Lemmas     map[string]*LemmaInfo
-	Writers    []*WritersInfo
-	restricted map[string]*WritersInfo // heap name -> declaration
-	canReach   map[*WritersInfo]map[*ssa.Function]bool
-	HeapSorts map[string]*smt.Sort
-	HeapGo    map[string]types.Type
-	typeTags  map[string]int
-	tagTypes  []types.Type
-	Notes     map[string]bool // assumptions encountered
-	Errors    []string
-	RepoDir   string
-	fnConsts  map[string]*smt.Term
-	Files     []*spec.File
-	usedContracts map[*Contract]bool
-	aliases   map[*types.Package]map[string]*types.Package // import aliases used in a package's source files
-	filePkg   map[*spec.File]*types.Package
+	SpecFuncs      map[string]*SpecFuncInfo
+	GhostF         map[string]*GhostFieldInfo // by name (unique)
+	GhostV         map[string]*GhostFieldInfo // ghost globals: Heap + Sort
+	Axioms         []*AxiomInfo
+	Guards         []GuardInfo
+	GlobalInvs     []*GlobalInv
+	Lemmas         map[string]*LemmaInfo
+	Writers        []*WritersInfo
+	restricted     map[string]*WritersInfo // heap name -> declaration
+	canReach       map[*WritersInfo]map[*ssa.Function]bool
+	HeapSorts      map[string]*smt.Sort
+	HeapGo         map[string]types.Type
+	typeTags       map[string]int
+	tagTypes       []types.Type
+	Notes          map[string]bool // assumptions encountered
+	Errors         []string
+	RepoDir        string
+	fnConsts       map[string]*smt.Term
+	Files          []*spec.File
+	usedContracts  map[*Contract]bool
+	aliases        map[*types.Package]map[string]*types.Package // import aliases used in a package's source files
+	filePkg        map[*spec.File]*types.Package
 }
 
 type AxiomInfo struct {
@@ -737,7 +738,7 @@ func shortTypeName(t types.Type) string {
 	return b.String()
 }
 
-var dataNames = map[string]string{}   // typeKey -> data sort name
+var dataNames = map[string]string{}    // typeKey -> data sort name
 var dataNameUsed = map[string]string{} // name -> typeKey
 
 func (e *Engine) SortOf(t types.Type) *smt.Sort {
@@ -925,12 +926,23 @@ func init() {
 			return []*smt.Term{smt.Eq(TypeOf(IfaceNil), smt.IntC(0))}
 		}
 		if strings.HasPrefix(t.Name, "sub$") && len(t.Args) == 1 {
+			// interior references made by different (struct type, field) pairs are different locations
+			subTagsMu.Lock()
+			tag, ok := subTags[t.Name]
+			if !ok {
+				tag = len(subTags) + 1
+				subTags[t.Name] = tag
+			}
+			subTagsMu.Unlock()
 			return []*smt.Term{smt.Neq(t, RefNil), smt.Eq(smt.App("parent$"+t.Name, smt.Ref, t), t.Args[0]),
-				smt.Eq(RootOf(t), RootOf(t.Args[0]))}
+				smt.Eq(RootOf(t), RootOf(t.Args[0])), smt.Eq(smt.App("subtag$ref", smt.Int, t), smt.IntC(int64(tag)))}
 		}
 		return nil
 	}
 }
+
+var subTags = map[string]int{}
+var subTagsMu sync.Mutex
 
 // RootOf maps an interior reference (embedded struct) to the allocated object that contains it.
 func RootOf(r *smt.Term) *smt.Term { return smt.App("root$ref", smt.Ref, r) }
